@@ -3,7 +3,8 @@ import core
 from coqterm import B, Rec
 import statelib as L
 from statelib import (C_LAUNCHED, C_BUILT, C_GUARD_WAIT, C_EXTENDED, C_FAILED, C_CLOSED,
-                      S_NEW, S_REMAP, S_SENTCONNECT, S_SUCCEEDED, S_DETACHED, S_FAILED, S_CLOSED)
+                      S_NEW, S_REMAP, S_SENTCONNECT, S_SUCCEEDED, S_DETACHED, S_FAILED, S_CLOSED, S_NEWRESOLVE,
+                      S_SENTRESOLVE)
 
 
 class Walker:
@@ -20,6 +21,7 @@ class Walker:
         self.tags = set()
         self.closed_c = set()
         self.closed_s = set()
+        self.newresolve_w = 12     # weight of NEWRESOLVE among the first sights of a stream (NEW: 78 - this)
 
     def pick(self, weighted):
         tot = sum(w for w, _ in weighted)
@@ -108,11 +110,11 @@ class Walker:
     def stream_kw(self, st, first):
         rng = self.rng
         kw = []
-        if st == S_NEW or (first and rng.random() < 0.3) or rng.random() < 0.04:
+        if st in (S_NEW, S_NEWRESOLVE) or (first and rng.random() < 0.3) or rng.random() < 0.04:
             if rng.random() < 0.9:
                 kw.append([L.K_SOURCE_ADDR, rng.randrange(len(L.SRCS)) * 65536 + rng.choice([0, 1, 4444, 51234, 65535, rng.randrange(65536)])])
-        if st == S_NEW and rng.random() < 0.8:
-            kw.append([L.K_PURPOSE, rng.choice([7, 8, 9])])
+        if st in (S_NEW, S_NEWRESOLVE) and rng.random() < 0.8:
+            kw.append([L.K_PURPOSE, 9 if st == S_NEWRESOLVE else rng.choice([7, 8, 9])])
         if st == S_NEW and rng.random() < 0.15:
             kw.append([L.K_SOCKS_USERNAME, rng.randrange(2)])
         if st == S_REMAP and rng.random() < 0.8:
@@ -143,12 +145,16 @@ class Walker:
             st = rng.choice([S_CLOSED, S_CLOSED, S_FAILED])
             cid = att if isinstance(att, int) else 0
         elif first:
-            st = self.pick([(78, S_NEW), (5, S_SENTCONNECT), (4, S_SUCCEEDED), (3, S_REMAP), (2, S_DETACHED), (2, S_CLOSED), (2, S_FAILED)])
+            st = self.pick([(78 - self.newresolve_w, S_NEW), (self.newresolve_w, S_NEWRESOLVE), (5, S_SENTCONNECT), (3, S_SENTRESOLVE), (4, S_SUCCEEDED), (3, S_REMAP),
+                            (2, S_DETACHED), (2, S_CLOSED), (2, S_FAILED)])
             if sid in self.closed_s:
                 self.tags.add('stream-id-reused')
             host = rng.randrange(len(L.HOSTS))
             port = rng.choice([80, 443, 0, 1, 65535, 6667, rng.randrange(65536)])
-            if st == S_NEW:
+            if st in (S_NEWRESOLVE, S_SENTRESOLVE):
+                port = 0                      # a RESOLVE request is for host:0
+                self.tags.add('resolve')
+            if st in (S_NEW, S_NEWRESOLVE):
                 cid = 0 if rng.random() < 0.93 else self.some_circuit()
             else:
                 cid = self.some_circuit()
@@ -174,6 +180,9 @@ class Walker:
                 host = rng.randrange(len(L.HOSTS))
             if st in (S_CLOSED, S_FAILED) and rng.random() < 0.1:
                 host = rng.randrange(len(L.HOSTS))       # ignored by everybody: the stream is gone
+        if st == S_SENTCONNECT and not first and (cur.get('resolve') or rng.random() < 0.04):
+            st = S_SENTRESOLVE            # the RESOLVE request is sent to the exit (also after a detach, on another circuit)
+            self.tags.add('resolve')
         kw = self.stream_kw(st, first)
         ev = ['s', sid, st, cid, host, port, kw]
         if st in (S_CLOSED, S_FAILED):
@@ -184,7 +193,7 @@ class Walker:
                 del self.streams[sid]
         else:
             if first:
-                cur = {'host0': host, 'port': port, 'cur': host, 'att': None}
+                cur = {'host0': host, 'port': port, 'cur': host, 'att': None, 'resolve': st in (S_NEWRESOLVE, S_SENTRESOLVE)}
                 self.streams[sid] = cur
             if st == S_REMAP:
                 cur['cur'] = host
@@ -202,7 +211,7 @@ class Walker:
         return ev
 
 
-def enumerate_histories(cids, sids, depth):
+def enumerate_histories(cids, sids, depth, resolve=False):
     """all legal histories of exactly `depth` events over a small alphabet (thorough tier)"""
     def succ(circs, streams):
         out = []
@@ -220,6 +229,10 @@ def enumerate_histories(cids, sids, depth):
         for s in sids:
             if s not in streams:
                 out.append((['s', s, S_NEW, 0, 0, 80, [[L.K_SOURCE_ADDR, 65536 + 4444]]], 'sets', s, (None, 0)))
+                if resolve:
+                    out.append((['s', s, S_NEWRESOLVE, 0, 0, 80, [[L.K_PURPOSE, 9]]], 'sets', s, (None, 0)))
+                    for c in circs:
+                        out.append((['s', s, S_SENTRESOLVE, c, 0, 80, []], 'sets', s, (c, 0)))
                 for c in circs:
                     out.append((['s', s, S_SENTCONNECT, c, 0, 80, []], 'sets', s, (c, 0)))
             else:
@@ -227,6 +240,8 @@ def enumerate_histories(cids, sids, depth):
                 if a is None:
                     for c in circs:
                         out.append((['s', s, S_SENTCONNECT, c, host, 80, []], 'sets', s, (c, host)))
+                        if resolve:
+                            out.append((['s', s, S_SENTRESOLVE, c, host, 80, []], 'sets', s, (c, host)))
                     out.append((['s', s, S_REMAP, 0, 4, 80, [[L.K_SOURCE, 0]]], 'sets', s, (None, 4)))
                 elif a != 'd':
                     out.append((['s', s, S_SUCCEEDED, a, host, 80, []], 'sets', s, (a, host)))
@@ -290,7 +305,12 @@ def make_case(rng, n_events, big_ids=False):
             pend -= 1
         else:
             evs.append(w.circ_action() if rng.random() < pc else w.stream_action())
-    return {'cons': cons, 'snap': snap, 'evs': evs, 'tags': sorted(w.tags)}
+    lis = []
+    if rng.random() < 0.4:       # application listeners that raise, registered before the bootstrap
+        for _ in range(rng.choice([1, 1, 2])):
+            lis.append(8 * (rng.randrange(6) + 1))
+        w.tags.add('raising-listener')
+    return {'cons': cons, 'snap': snap, 'evs': evs, 'lis': lis, 'tags': sorted(w.tags)}
 
 
 def launched(rng, w, n):
@@ -375,7 +395,9 @@ class P(core.Prop):
     design_ref = '5/C07'
     rule = ('histories = random walks on Tor\'s own view (legal by construction, re-checked by Spec.C07.legal in Coq): '
             '<= 5 circuit ids and <= 5 stream ids (also ids around the byte/16-bit boundaries), launch/extend/build/'
-            'guard_wait/close/fail, new/remap/sentconnect/succeeded/detached/failed/closed, first sight in any status, '
+            'guard_wait/close/fail, new/remap/sentconnect/succeeded/detached/failed/closed, RESOLVE requests (newresolve, '
+            'sentresolve on a circuit, remap, detach and retry on another circuit; live and in the snapshot), first sight in any '
+            'status, in 40% of the cases 1-2 application listeners that raise from one callback (registered before the bootstrap), '
             'in half of the cases build_circuit() calls (0-3 relays) at random positions and Tor\'s answer to the oldest one '
             '(250 EXTENDED n just after CIRC n LAUNCHED, for an announced circuit without hops, or before the first event '
             'of n; or 551), '
@@ -393,7 +415,7 @@ class P(core.Prop):
     assumptions = ['Tor changes a stream\'s address only through REMAP and never its port; paths only grow between LAUNCHED events',
                    'an attached stream changes circuit only through DETACHED; stream ids in NEW are fresh',
                    'no stream attacher is installed and the address map is empty (C09, C20)',
-                   'NEWRESOLVE/SENTRESOLVE streams and pre-0.2.2 short names in paths are outside the envelope',
+                   'pre-0.2.2 short names in paths are outside the envelope',
                    'Tor answers EXTENDCIRCUIT 0 with 250 EXTENDED n only for a circuit n it has (no hop reported yet) or is about '
                    'to announce; the answer is read as Tor\'s statement "n EXTENDED" (no keywords, no path)']
 
@@ -401,6 +423,10 @@ class P(core.Prop):
         from txtorcon.circuit import Circuit
         w = L.World(case['cons'], case['snap'])
         trace = []
+        for n in case.get('lis') or []:
+            cl, sl = L.raising_listeners(n)
+            w.state.add_circuit_listener(cl)
+            w.state.add_stream_listener(sl)
         r = w.bootstrap()
         trace.append(w.dump(r))
         fed = 0
@@ -477,7 +503,9 @@ class P(core.Prop):
             out.extend(enumerate_histories(cs, ss, depth))
         for h in enumerate_histories((1,), (1,), 3):
             out.extend(with_builds(h))
-        return out, ('every legal history of exactly 3 events over 1 circuit id x 1 stream id crossed with one build_circuit() '
+        out.extend(enumerate_histories((1,), (1, 2), 4, resolve=True))
+        return out, ('every legal history of exactly 4 events over 1 circuit id x 2 stream ids with NEWRESOLVE / SENTRESOLVE in the '
+                     'alphabet; every legal history of exactly 3 events over 1 circuit id x 1 stream id crossed with one build_circuit() '
                      'and its answer (EXTENDED 1 where legal, or an error) at every pair of positions; '
                      'every legal history of exactly 4 events over 2 circuit ids x 2 stream ids, and of exactly 5 events '
                      'over 2 x 1 and 1 x 2 ids (alphabet: LAUNCHED / first-sight BUILT / EXTENDED+1 hop / BUILT / CLOSED / '
@@ -494,6 +522,8 @@ class P(core.Prop):
             yield dict(case, snap=[])
         if case['cons']:
             yield dict(case, cons=[])
+        if case.get('lis'):
+            yield dict(case, lis=[])
         def bare(e):
             return e[:-1] + [[]] if e[0] in ('c', 's') else e
         if any(e[-1] for e in evs + snap if e[0] in ('c', 's')):
